@@ -163,8 +163,10 @@ func (s *nrSim) startController() {
 
 // ---------------------------------------------------------------- object builders / environment writers
 
-func nrCPUQ(milli int64) resource.Quantity { return *resource.NewMilliQuantity(milli, resource.DecimalSI) }
-func nrMemQ(b int64) resource.Quantity     { return *resource.NewQuantity(b, resource.BinarySI) }
+func nrCPUQ(milli int64) resource.Quantity {
+	return *resource.NewMilliQuantity(milli, resource.DecimalSI)
+}
+func nrMemQ(b int64) resource.Quantity { return *resource.NewQuantity(b, resource.BinarySI) }
 
 func (s *nrSim) createNode(n *nrNodeM) {
 	c := n.cfg
